@@ -43,7 +43,7 @@ using dsplib::real_t;
 inline std::vector<double> gen_signal(uint32_t seed, size_t n, double scale = 1.0) {
     Rng r(mix(seed, 0x5161));
     std::vector<double> x(n);
-    const int type = int(r.below(7));
+    const int type = int(r.below(8));
     switch (type) {
     case 0:   // white gaussian
         for (auto& v : x) {
@@ -85,6 +85,17 @@ inline std::vector<double> gen_signal(uint32_t seed, size_t n, double scale = 1.
         const double na = r.logu(1e-4, 1);
         for (size_t i = 0; i < n; ++i) {
             x[i] = std::sin(6.283185307179586 * f * double(i) + ph) + na * r.normal();
+        }
+        break;
+    }
+    case 7: {   // a short pattern repeated over and over: whole frames recur exactly (sample-identical consecutive calls)
+        const size_t period = size_t(r.chance(0.5) ? (1u << r.below(7)) : r.range(1, 96));
+        std::vector<double> pat(period);
+        for (auto& v : pat) {
+            v = r.chance(0.2) ? 0.0 : r.normal();
+        }
+        for (size_t i = 0; i < n; ++i) {
+            x[i] = pat[i % period];
         }
         break;
     }
